@@ -29,7 +29,8 @@ def render_string(chars, q='"') -> str:
 def render_cond(item, kw) -> str:
     s = f'#{kw} ' + exprs.render(item['lhs'])
     if item.get('op') is not None:
-        s += f" {item['op']} " + exprs.render(item['rhs'])
+        rhs = exprs.render(item['rhs'])
+        s += f" {item['op']} " + (item['rhs_quoted'] + rhs + item['rhs_quoted'] if item.get('rhs_quoted') else rhs)
     return s
 
 
